@@ -62,8 +62,8 @@ def _pool_solve(i):
     try:
         _POOL_CHK.solve_one(o)
     except Exception as ex:
-        return ("error", None, 0.0, repr(ex))
-    return (o.verdict, o.backend, o.solver_s, o.detail)
+        return ("error", None, 0.0, repr(ex), None)
+    return (o.verdict, o.backend, o.solver_s, o.detail, getattr(o, "cross", None))
 
 
 def uf_axiom_instances(terms):
@@ -160,6 +160,7 @@ class Check:
         self.native_evals = 0
         self.samples = []
         self._borrow = None        # property id whose contracts / native clauses are being reused (see borrow())
+        self._bridged = set()      # native clauses whose family has already been run in this check
 
     # ------------------------------------------------------------------ building
     def borrow(self, prop_id):
@@ -171,6 +172,7 @@ class Check:
             def __enter__(self_):
                 self_.prev = chk._borrow
                 chk._borrow = prop_id
+                chk.__dict__.setdefault("_borrowed_props", set()).add(prop_id)
 
             def __exit__(self_, *a):
                 chk._borrow = self_.prev
@@ -278,6 +280,18 @@ class Check:
             if r2 is not None:
                 r = r2
                 o.backend = "cvc5-1.0.3(cli)"
+        if self.tier == "thorough" and r == z3.unsat and o.expect == "unsat" and not os.environ.get("AOVC_NO_CROSSCHECK"):
+            # second opinion: the other solver must not refute what z3 proved (its `unknown` is recorded, a `sat` is a disagreement)
+            save_t = self.timeout_ms
+            self.timeout_ms = 10000
+            try:
+                r2 = self.cvc5(o, want_unknown=True)
+            finally:
+                self.timeout_ms = save_t
+            o.cross = {"sat": "DISAGREES", "unsat": "agrees", None: "no answer", "unknown": "unknown"}.get(r2, str(r2))
+            if r2 == "sat":
+                r = z3.unknown
+                o.detail = "z3 says unsat, cvc5 says sat: solver disagreement"
         o.solver_s = time.time() - t0
         if r == z3.sat or r == "sat":
             o.verdict = "sat"
@@ -319,8 +333,10 @@ class Check:
             for o in obls:
                 self._solve_guarded(o)
             return
-        for o, (verdict, backend, secs, detail) in zip(obls, results):
+        for o, (verdict, backend, secs, detail, cross) in zip(obls, results):
             o.verdict, o.backend, o.solver_s, o.detail = verdict, backend, secs, detail
+            if cross is not None:
+                o.cross = cross
             if verdict in ("sat", "error") and o.expect == "unsat":
                 self._solve_guarded(o)       # in this process, to have the model for replay
 
@@ -331,7 +347,7 @@ class Check:
             o.verdict = "error"
             o.detail = repr(ex)
 
-    def cvc5(self, o):
+    def cvc5(self, o, want_unknown=False):
         if not os.path.exists(CVC5):
             return None
         try:
@@ -345,6 +361,8 @@ class Check:
                 out = p.stdout.strip().splitlines()
                 if out and out[0] in ("sat", "unsat"):
                     return out[0]
+                if want_unknown:
+                    return "unknown"
             finally:
                 os.unlink(path)
         except Exception:
@@ -375,7 +393,10 @@ class Check:
         if p.returncode != 0 or not lines:
             return {"status": "error", "error": (p.stderr or p.stdout)[-2000:]}
         try:
-            return json.loads(lines[-1])
+            res = json.loads(lines[-1])
+            if isinstance(res, dict) and clause is not None:
+                res["clause_full"] = clause if owner == self.prop_id else "%s:%s" % (owner, clause)     # what --replay needs to find the clause again
+            return res
         except Exception as ex:
             return {"status": "error", "error": "bad native output: %s" % ex}
 
@@ -386,11 +407,22 @@ class Check:
             return []
         with open(path) as fh:
             data = json.load(fh)
-        return [e for e in data.get("findings", []) if e.get("property") == self.prop_id]
+        props = {self.prop_id} | set(getattr(self, "_borrowed_props", ()))      # findings listed under a property whose contracts are re-checked here apply to those contracts
+        return [e for e in data.get("findings", []) if e.get("property") in props]
 
-    def bounded_native(self, name, clause, bound, function=""):
+    def bridge(self, clause, name, function=""):
+        """floating-point / dtype bridge for a clause that was proved over the reals and mathematical integers (A-REAL, A-INT):
+        the same clause evaluated natively (NumPy dtypes, IEEE arithmetic) on its deterministic family, once per clause.  Bounded."""
+        clause = self._cl(clause)
+        if clause is None or clause in self._bridged or os.environ.get("AOVC_NO_BRIDGE"):
+            return
+        self.bounded_native("native bridge (IEEE / dtype semantics) for the clause proved over the reals: %s" % name, clause, "see native/%s.py family '%s'" % (
+            clause.split(":")[0] if ":" in clause else self.prop_id, clause.split(":")[-1]), function, soft=True)
+
+    def bounded_native(self, name, clause, bound, function="", soft=False):
         """a bounded stand-in: the native clause evaluated on its deterministic family of inputs (never counted as proved)"""
         clause = self._cl(clause)
+        self._bridged.add(clause)
         fam = self.native("family", clause, None)
         n = int(fam.get("evaluations", 0) or 0)
         self.native_evals += n
@@ -403,7 +435,10 @@ class Check:
             print("FAILED bounded stand-in %s (%s): %s" % (name, clause, fam.get("message", "")))
             print("VIOLATION property=%s replay=%s" % (self.prop_id, os.path.relpath(path, VERIF)))
         elif fam.get("status") != "pass":
-            self.unsupported.append((name, "native family did not run: %s" % str(fam.get("error"))[:300]))
+            if soft:
+                self.notes.append("native bridge for clause %s did not run: %s" % (clause, str(fam.get("error"))[:200]))
+            else:
+                self.unsupported.append((name, "native family did not run: %s" % str(fam.get("error"))[:300]))
 
     def confirm_known(self, fid, clause, inputs):
         """an open finding: re-confirm its recorded witness natively and print the KNOWN-FINDING line; a failure of the same
@@ -434,7 +469,7 @@ class Check:
             "property": self.prop_id,
             "obligation": o.name if o is not None else None,
             "function": o.function if o is not None else None,
-            "clause": o.clause if o is not None else None,
+            "clause": o.clause if o is not None else (native_result or {}).get("clause_full", (native_result or {}).get("clause")),
             "encoding": o.encoding if o is not None else None,
             "reproduced_on_real_code": bool(reproduced),
             "inputs": inputs,
@@ -584,7 +619,8 @@ class Check:
         tag = (nat or {}).get("finding")
         for e in open_known:
             if tag is not None and tag == e.get("id"):
-                line = "%s [witness: %s]" % (e.get("what"), (nat or {}).get("message", ""))
+                line = "%s%s [witness: %s]" % ("" if e.get("property") == self.prop_id else "[listed under property %s, whose contract is re-checked here] " % e.get("property"),
+                                               e.get("what"), (nat or {}).get("message", ""))
                 if line not in self.known:
                     self.known.append(line)
                 return True
@@ -597,7 +633,7 @@ class Check:
         for o in self.obligations:
             per.append({"name": o.name, "function": o.function, "encoding": o.encoding, "kind": o.kind, "backend": o.backend,
                         "verdict": ("proved" if o.verdict == "unsat" else o.verdict) if o.expect == "unsat" else ("reachable" if o.verdict == "sat" else o.verdict),
-                        "solver_s": round(o.solver_s, 4), "lemmas": o.lemmas})
+                        "solver_s": round(o.solver_s, 4), "lemmas": o.lemmas, **({"cvc5_crosscheck": o.cross} if getattr(o, "cross", None) else {})})
         samples = list(self.samples)
         for o in proof_obls[:2]:
             txt = o.smt2()
@@ -660,6 +696,9 @@ def run_check(prop_id, title, build, argv=None):
         return 0 if res.get("status") == "pass" else 3
     try:
         build(chk)
+        if prop_id not in ("C06", "C20"):
+            from contracts import purity
+            purity.auto(chk)
     except frontend.SourceError as ex:
         print("SOURCE-ERROR %s" % ex)
         chk.unsupported.append(("frontend", str(ex)))
